@@ -179,11 +179,23 @@ def quad_cases(rng, ctx, full):
             subsets = [s for s in subsets if not s[-1] and not s[-2] and any(s)]      # weighted: the limits stay plain numbers
         if not full and not qkw:
             subsets = [s for k, s in enumerate(subsets) if k % 3 == 0 or sum(s) in (0, slots)]
-        for sub in subsets:
+        plan = [(s_, None) for s_ in subsets]
+        if not qkw and npar >= 2:
+            # history: the SAME integrand over the SAME plain limits three times in a row - all parameters observables at a point P, then only the
+            # first one an observable at another point Q, then all of them at Q: every call is judged on its own, nothing of an earlier one may enter
+            P_ = [v * 0.93 for v in pv]
+            Q_ = [v * 1.08 for v in pv]
+            allp = tuple([True] * npar + [False, False])
+            onep = tuple([True] + [False] * (npar - 1) + [False, False])
+            plan += [(allp, {'pvals': P_, 'a': 0.125, 'b': 1.375, 'tag': '-h1'}), (onep, {'pvals': Q_, 'a': 0.125, 'b': 1.375, 'tag': '-h2'}),
+                     (allp, {'pvals': Q_, 'a': 0.125, 'b': 1.375, 'tag': '-h3'})]
+        for sub, ov in plan:
             cls = str(rng.choice(['same', 'gapped', 'second_ensemble', 'multi_replica']))
             pvals = [v * float(rng.uniform(0.9, 1.1)) for v in pv]
             a, b = float(np.round(rng.uniform(-0.5, 0.4), 3)), float(np.round(rng.uniform(0.8, 2.0), 3))
-            if rng.random() < 0.3:
+            if ov:
+                pvals, a, b = list(ov['pvals']), ov['a'], ov['b']
+            if rng.random() < 0.3 and not ov:
                 a, b = b, a                    # a reversed interval is a legitimate request: the integral changes sign
             nobs = sum(sub)
             obs = []
@@ -196,7 +208,7 @@ def quad_cases(rng, ctx, full):
             oi = 0
             for k in range(slots):
                 earlier = [j for j in range(k) if sub[j]]
-                if sub[k] and earlier and rng.random() < 0.25:
+                if sub[k] and earlier and rng.random() < 0.25 and not ov:
                     # the very same observable object enters twice (as two parameters, or as a parameter and a limit)
                     j = int(rng.choice(earlier))
                     if not (k == slots - 1 and j == slots - 2):          # not both limits: the interval would be empty
@@ -207,7 +219,7 @@ def quad_cases(rng, ctx, full):
                         continue
                 if sub[k]:
                     o = _rescale(obs[oi], vals[k])
-                    if rng.random() < 0.15:
+                    if rng.random() < 0.15 and not ov:
                         o = pe.cov_Obs(vals[k], (0.03 * abs(vals[k]) + 0.01) ** 2, 'q%d' % k)
                     oi += 1
                     ops.append(o)
@@ -230,7 +242,7 @@ def quad_cases(rng, ctx, full):
                 res = project_any(first)
             except Exception as e:  # noqa: BLE001
                 res = project_exc(e)
-            cid = 'quad-%s-%s-%s' % (name, ''.join('o' if s else 'n' for s in sub), cls)
+            cid = 'quad-%s-%s-%s%s' % (name, ''.join('o' if s else 'n' for s in sub), cls, ov['tag'] if ov else '')
             if out is not None and nobs:
                 qframe['id'] = cid + '-frame'
                 cases.append(qframe)
